@@ -102,7 +102,10 @@ def run_dtype(ctx, dtype):
     for name, (sr, grid) in srs.items():
         # star near the multiplicative identity from below (log: 1 - e^x suffers cancellation there); not part of the law grid,
         # whose values are chosen so that sums are exact
-        for x in grid + ([-1e-3, -1e-5, -1e-8, -2.0 ** -30, -1e-12, -2.0 ** -60, -1e-300] if name != 'real' else []):
+        # (the extra points are first rounded to the dtype: -1e-300 is -0.0 in float32, and the reference must see what the
+        # implementation sees — a float64 reference on the unrounded point was a false alarm of the thorough tier)
+        extra = sorted({T(v).item() for v in [-1e-3, -1e-5, -1e-8, -2.0 ** -30, -1e-12, -2.0 ** -60, -1e-300]}) if name != 'real' else []
+        for x in grid + [v for v in extra if v not in grid]:
             reqs.append(f'C08.op {name} star {enc_ext(big)} 1 {enc_ext(x)}')
             meta.append((name, 'star', (x,), sr.star(T(x)).item()))
         for x, y in itertools.product(grid, repeat=2):
